@@ -167,7 +167,16 @@ def c_query(ctx, args):
         a = make(ctx, rng, 'StabilizerState', n)
         f = lambda: o.expect(a)
     elif meth == 'entropy':
-        f = lambda: o.entropy([q for q in range(n) if rng.random() < 0.5] or [0])
+        # every region kind: arbitrary subsets, leading and trailing blocks, whole system; called twice (the value must not change either)
+        lo = rng.randrange(n)
+        region = rng.choice([[q for q in range(n) if rng.random() < 0.5] or [0], list(range(lo, n)), list(range(0, lo + 1)), list(range(n))])
+
+        def f():
+            a1 = o.entropy(region)
+            a2 = o.entropy(np.array([q in region for q in range(n)]))
+            if a1 != a2:
+                raise AssertionError('entropy changed between two calls: %r %r' % (a1, a2))
+            return a1
     elif meth == 'sample':
         f = lambda: o.sample(3)
     elif meth == 'get_prob':
@@ -346,7 +355,7 @@ def run(ctx):
             do(ctx, 'copy', [kind, n, rng.randrange(10 ** 6)], nontrivial=('c', kind, ctx.res.evaluations))
     for kind, meths in QUERIES.items():
         for m in meths:
-            for _ in range(max(2, int(3 * B))):
+            for _ in range(max(8, int(10 * B))):
                 do(ctx, 'query', [kind, m, rng.randint(1, 4), rng.randrange(10 ** 6)], nontrivial=('q', kind, m, ctx.res.evaluations))
     for op in ['rotate_by', 'transform_by', 'measure', 'measure_state', 'gate_forward', 'gate_backward', 'circuit_forward', 'circuit_backward', 'layer_forward']:
         for _ in range(max(3, int(5 * B))):
